@@ -34,7 +34,15 @@ pub fn run(sc: &Value) -> Value {
     rt.block_on(async {
         let archive = Archive::create_path(&arch).await.unwrap();
         backup(&archive, &src1, &opts(), TestMonitor::arc()).await.unwrap();
+        if sc["middle_tree"].is_array() {
+            // a second complete version (the one a racing delete removes)
+            let srcm = tmp.path().join("srcm");
+            std::fs::create_dir_all(&srcm).unwrap();
+            make_tree(&srcm, &sc["middle_tree"]);
+            backup(&archive, &srcm, &opts(), TestMonitor::arc()).await.unwrap();
+        }
     });
+    let delete_ids: Vec<BandId> = sc["delete"].as_array().map(|a| a.iter().map(|v| BandId::from(v.as_u64().unwrap() as u32)).collect()).unwrap_or_default();
     if let Some(g) = sc["garbage_file"].as_str() {
         let data = std::fs::read(src2.join(g.trim_start_matches('/'))).unwrap();
         let h = hex::encode(blake2_rfc::blake2b::blake2b(64, &[], &data).as_bytes());
@@ -112,7 +120,7 @@ pub fn run(sc: &Value) -> Value {
                     Err(e) => format!("Err:{e:?}"),
                 };
             }
-            let r = archive.delete_bands(&[], &DeleteOptions::default(), TestMonitor::arc()).await;
+            let r = archive.delete_bands(&delete_ids, &DeleteOptions::default(), TestMonitor::arc()).await;
             tokio::time::sleep(std::time::Duration::from_millis(20)).await;
             match r {
                 Ok(_) => "Ok".to_string(),
